@@ -40,9 +40,9 @@ PROP = dict(
         ],
         thorough=[
             job("sweep", "^TestVerifC18RefWeight$", ["TestVerifC18RefWeight"], 1, shards=1),
-            job("sweep", "^TestVerifC18FeeFunction$", ["TestVerifC18FeeFunction"], 400000, shards=4, timeout=1500),
-            job("sweep", "^TestVerifC18Publisher$", ["TestVerifC18Publisher"], 100000, shards=6, timeout=1500),
-            job("sweep", "^TestVerifC18Aggregator$", ["TestVerifC18Aggregator"], 60000, shards=6, timeout=1500),
+            job("sweep", "^TestVerifC18FeeFunction$", ["TestVerifC18FeeFunction"], 240000, shards=4, timeout=1500),
+            job("sweep", "^TestVerifC18Publisher$", ["TestVerifC18Publisher"], 60000, shards=6, timeout=1500),
+            job("sweep", "^TestVerifC18Aggregator$", ["TestVerifC18Aggregator"], 36000, shards=6, timeout=1500),
         ],
     ),
 )
